@@ -416,7 +416,7 @@ func runSchedule(c *Ctx, rng *RNG, cfg rtConfig) *rtRun {
 				r.panics = append(r.panics, fmt.Sprint(pn))
 			}
 		}()
-		d, err = p.Config(root, &RC{N: &RCN{}}, srcs...)
+		d, err = p.Config(root, &RC{N: &RCN{}, Ṅ: &RCN{}}, srcs...)
 	}()
 	rep := r.ask(initLabel)
 	if err != nil {
